@@ -62,7 +62,9 @@ pub(super) fn send_to(
         }
     }
 
-    if buf.len() as u32 > max_payload(k, dst_sa) {
+    // Compare in usize: `buf.len() as u32` truncates, so a buffer of
+    // 2^32 + n bytes would slip under the limit.
+    if buf.len() > max_payload(k, dst_sa) as usize {
         return Poll::Ready(Err(Error::from_raw_os_error(EMSGSIZE)));
     }
 
